@@ -33,7 +33,7 @@ var lexFragments = []string{
 
 func genLexCmd(in *bufio.Scanner, out *bufio.Writer, args []string) error {
 	fs := flag.NewFlagSet("genlex", flag.ContinueOnError)
-	mode := fs.String("mode", "exhaustive", "exhaustive | random | corpus | big | boundary | idents")
+	mode := fs.String("mode", "exhaustive", "exhaustive | random | corpus | big | boundary | idents | lengths")
 	maxLen := fs.Int("len", 3, "exhaustive: maximum length")
 	n := fs.Int("n", 1000, "random: number of cases")
 	seed := fs.Uint64("seed", 1, "random seed")
@@ -123,6 +123,38 @@ func genLexCmd(in *bufio.Scanner, out *bufio.Writer, args []string) error {
 						fmt.Fprintln(out, hx([]byte(pre+strings.Repeat(l, n))))
 						fmt.Fprintln(out, hx([]byte(strings.Repeat(l, n)+pre+" ")))
 					}
+				}
+			}
+		}
+	case "lengths":
+		// every token class at every small size and around the powers of two (fixed-size windows, look-ahead limits,
+		// digit grouping): templates with a repeated unit
+		sizes := []int{}
+		for n := 0; n <= 40; n++ {
+			sizes = append(sizes, n)
+		}
+		for _, c := range []int{48, 64, 96, 128, 256, 512, 1024, 2048, 4096, 8192} {
+			sizes = append(sizes, c-2, c-1, c, c+1, c+2)
+		}
+		tmpl := []struct{ pre, unit, post string }{
+			{".", "0", ""}, {".", "0", "1"}, {"1.", "0", "5"}, {"0.", "0", "1e5"}, {".", "9", "e"}, {".", "9", "e5"}, {"", "1", ""}, {"", "9", ".5"},
+			{"1e", "1", ""}, {"1e-", "0", "1"}, {"0x", "f", ""}, {"0x", "0", "1p3"}, {"0b", "1", ""}, {"0o", "7", ""}, {"1", "_0", ""}, {"0", "0", "7"},
+			{"'", "a", "'"}, {"'", "a", "''b'"}, {"'", "a", "\\'b'"}, {"'", "é", "'"}, {"'", "\\n", "'"}, {"'", "''", "'"},
+			{"`", "a", "`"}, {"`", "a", "``b`"}, {"\"", "a", "\""}, {"\"", "a", "\"\"b\""},
+			{"$t$", "a", "$t$"}, {"$$", "a", "$$"}, {"$", "t", "$ x $tttt$"}, {"$tag$", "é", "$tag$"}, {"$t$", "a", ""},
+			{"/*", "a", "*/"}, {"/*", "/*", "*/"}, {"/*", "*", "/"}, {"--", "a", "\n1"}, {"#", "a", "\n1"}, {"{p:", "a", "}"}, {"{", "a", ""},
+			{"x'", "41", "'"}, {"x'", "4", "'"}, {"b'", "1", "'"}, {"b'", "01", "'"}, {"B'", "1", ""}, {"X'", "f", ""},
+			{"a.", "0", ""}, {"a.", "1", "x"}, {"t.", "a", ""}, {"@@", "a", ""}, {"", "a.", "b"}, {"", " ", "1"}, {"", "\n", "1"}, {"", "(", ""}, {"", ";", ""},
+			{"‘", "a", "’"}, {"“", "a", "”"}, {"−", "a", "\n1"},
+		}
+		for _, t := range tmpl {
+			for _, n := range sizes {
+				if n > 300 && len(t.unit) > 1 && n%3 != 0 {
+					continue
+				}
+				fmt.Fprintln(out, hx([]byte(t.pre+strings.Repeat(t.unit, n)+t.post)))
+				if n <= 40 || n%64 == 0 {
+					fmt.Fprintln(out, hx([]byte("SELECT "+t.pre+strings.Repeat(t.unit, n)+t.post+" AS x, 2")))
 				}
 			}
 		}
